@@ -11,19 +11,32 @@ RULE = ("Cases (T, rate, accel, jerk) are built constructively in the firmware-v
         "parabola vertex placed before / at the first ticks / strictly inside / at the last ticks / after "
         "the move (60% of cases); oracle = exact max_k |r_k| from the integer recurrence (tick loop for "
         "T <= 4096). Asserted: got <= peak, got >= |r_1|, got >= |r_T|, peak - got <= |jerk|. Non-trivial: "
-        "the peak is strictly larger than both end rates (interior extremum). Distinct = argument tuples.")
+        "the peak is strictly larger than both end rates (interior extremum). A quarter of the cases ask the same "
+        "profile for up to three further durations T' <= T in a row (each call judged on its own), and an "
+        "eighth construct the coincidence r_T = -r_1. Distinct = argument tuples.")
 ASSUMPTIONS = [
     "firmware-valid integer moves only, as the quantifier says; the corollary about over-range moves is "
     "not tested separately",
 ]
 REQUIRED_CLASSES = ["nontrivial", "vertex_in_first_3", "vertex_in_last_3", "vertex_outside", "jerk_zero",
-                    "T<=3", "loop_validated", "shortfall_nonzero"]
+                    "T<=3", "loop_validated", "shortfall_nonzero", "same_profile_other_duration",
+                    "end_rates_opposite_equal"]
 QUICK_SHARDS = 4
 
 ebb_calc = sut.load("ebb_calc")
 
 
 def body(ctx, case):
+    """One profile, one or more durations in a row (case["also_T"]): every call must satisfy the statement,
+    whatever was asked before."""
+    durations = [case["T"]] + [t for t in case.get("also_T", [])]
+    if case.get("also_first"):
+        durations = durations[1:] + durations[:1]
+    for T in durations:
+        one(ctx, dict(case, T=T), case, len(durations) > 1)
+
+
+def one(ctx, case, whole, in_sequence):
     T, rate, accel, jerk = case["T"], case["rate"], case["accel"], case["jerk"]
     if not rates_valid(T, rate, accel, jerk):
         raise sut.HarnessError("generator produced an out-of-domain T3 move: %r" % (case,))
@@ -49,23 +62,27 @@ def body(ctx, case):
         classes.add("T<=3")
     if looped:
         classes.add("loop_validated")
+    if in_sequence:
+        classes.add("same_profile_other_duration")
+    if r1 == -r_end and r1 != 0:
+        classes.add("end_rates_opposite_equal")
     interior = peak > max(abs(r1), abs(r_end))
     got = call_sut(ebb_calc.max_rate_t3, T, rate, accel, jerk)
     if isinstance(got, (int, float)) and peak - got > 0:
         classes.add("shortfall_nonzero")
     ctx.record((T, rate, accel, jerk), classes, nontrivial=interior)
     if not isinstance(got, (int, float)):
-        ctx.fail("max_rate_t3 returned %r" % (got,), case)
+        ctx.fail("max_rate_t3 returned %r" % (got,), whole)
     args = (T, rate, accel, jerk)
     if got > peak:
-        ctx.fail("max_rate_t3%r = %r exceeds the largest per-tick |rate| %d" % (args, got, peak), case)
+        ctx.fail("max_rate_t3%r = %r exceeds the largest per-tick |rate| %d" % (args, got, peak), whole)
     if got < abs(r1):
-        ctx.fail("max_rate_t3%r = %r is below |rate at tick 1| = %d" % (args, got, abs(r1)), case)
+        ctx.fail("max_rate_t3%r = %r is below |rate at tick 1| = %d" % (args, got, abs(r1)), whole)
     if got < abs(r_end):
-        ctx.fail("max_rate_t3%r = %r is below |rate at tick T| = %d" % (args, got, abs(r_end)), case)
+        ctx.fail("max_rate_t3%r = %r is below |rate at tick T| = %d" % (args, got, abs(r_end)), whole)
     if peak - got > abs(jerk):
         ctx.fail("max_rate_t3%r = %r falls short of the true peak %d by more than |jerk| = %d"
-                 % (args, got, peak, abs(jerk)), case)
+                 % (args, got, peak, abs(jerk)), whole)
     if ctx.thorough and jerk != 0 and not ctx.replaying:
         try:
             target(float(peak - got) / abs(jerk), label="shortfall/|jerk|")
@@ -76,7 +93,23 @@ def body(ctx, case):
 @st.composite
 def cases(draw):
     mv = draw(t3_moves(vertex_weight=0.6, max_log=draw(st.sampled_from([6, 12, 32]))))
-    return {"T": mv["T"], "rate": mv["rate"], "accel": mv["accel"], "jerk": mv["jerk"]}
+    case = {"T": mv["T"], "rate": mv["rate"], "accel": mv["accel"], "jerk": mv["jerk"]}
+    T, accel, jerk = case["T"], case["accel"], case["jerk"]
+    if T >= 3 and draw(st.integers(0, 7)) == 0:
+        # coincidence: the first and the last tick have opposite rates of equal magnitude (r_T = -r_1)
+        total = fw.t3_q(accel, jerk, 1) + fw.t3_q(accel, jerk, T)
+        if total % 2 == 0:
+            r0 = -total // 2
+            rate = r0 + fw.tz(accel, 2) - fw.tz(jerk, 6)
+            if rates_valid(T, rate, accel, jerk):
+                case["rate"] = rate
+    if T >= 2 and draw(st.integers(0, 3)) == 0:
+        # the same profile asked for other durations in a row (any T' <= T is valid when T is)
+        others = draw(st.lists(st.one_of(st.integers(1, T), st.integers(1, min(T, 8)),
+                                         st.integers(max(1, T - 4), T)), min_size=1, max_size=3))
+        case["also_T"] = others
+        case["also_first"] = draw(st.booleans())
+    return case
 
 
 def small_grid():
